@@ -483,6 +483,17 @@ func (e *errRetry) Error() string { return "pgsim: statement must wait for anoth
 
 // endXact commits or aborts a top-level transaction and wakes waiters.
 func (db *DB) endXact(x *xact, commit bool) {
+	// savepoints still open when the top-level transaction ends (e.g. the one
+	// re-established by ROLLBACK TO SAVEPOINT) end with it
+	for _, sub := range db.xacts {
+		if sub != x && sub.top == x && sub.status == txInProgress {
+			if commit {
+				sub.status = txCommitted
+			} else {
+				sub.status = txAborted
+			}
+		}
+	}
 	if commit {
 		x.status = txCommitted
 		db.commitSeq++
